@@ -115,7 +115,7 @@ def an_old_trace(E, mc, g):
     return old, inner, pre
 
 
-@task("mask.edit", props=["C01", "C05", "C08", "C14", "C23"], functions=FUNCS)
+@task("mask.edit", props=["C01", "C05", "C08", "C14", "C16", "C23"], functions=FUNCS)
 def t_edit(E):
     mc, g = combinator(E)
     T = E.I.T
@@ -160,9 +160,10 @@ def t_edit(E):
     E.prove("C08.MaskCombinator.edit.weight_does_not_depend_on_the_tag_of_an_unchanged_flag", E.eq(w, SReal(spec_w)))
     E.prove("C08.MaskCombinator.edit.new_trace_does_not_depend_on_the_tag_of_an_unchanged_flag",
             check_view(E, new, mc, new_inner, post, TupleT((post,), T.d_primal(argdiffs.tail))))
-    # C08: retdiff primal is the new return value
+    # C08: retdiff primal is the new return value - i.e. a Mask carrying the NEW flag (C14: valid iff the flag is True now;
+    # C16: masked_iterate_final's update decides "advance or keep the value" from exactly this mask)
     E.prove("C08.MaskCombinator.edit.retdiff_primal",
-            E.eq(E.call(INC + ":Diff.tree_primal", rd), E.method(new, "get_retval")))
+            E.eq(E.call(INC + ":Diff.tree_primal", rd), E.method(new, "get_retval")), also=["C14", "C16"])
     E.prove("C08.MaskCombinator.edit.nochange_sound", E.Implies(
         E.I.T.all_nochange(rd), E.eq(E.method(new, "get_retval"), E.method(old, "get_retval"))))
     E.prove("C05.MaskCombinator.edit.bwd_is_update", isinstance(bwd, Obj) and bwd.cls.name == "Update")
